@@ -198,7 +198,13 @@ def execute(scn):
         tol = util.TOL[tolclass] * step
         pre = f"{name}:state{w + 1}:step{step}:"
         cls = f"{name}{cor[w]}{rot3 if name.startswith('implicit') else ''}:act={scn['act']}:damp={scn['damp']}"
+        skew = name == "implicitfast" and "rot3=1" in cls
         for f in ("qpos", "qvel", "qacc_warmstart"):
+          if skew:
+            # known version skew (implicit gyroscopic term, listed finding) moves the result by <= ~2e-3 relative: compare at
+            # 25x the tolerance first, so that anything grosser than the known deviation keeps its own (unlisted) key
+            if not c.close(pre + f, got[f][w], r[f], 25 * tol, vkey=f"{f}:{cls}:beyond_known_skew".replace("rot3=1", "rot3=one")):
+              continue
           c.close(pre + f, got[f][w], r[f], tol, vkey=f"{f}:{cls}")
         if mjm.na:
           c.close(pre + "act", got["act"][w], r["act"], tol, vkey=f"act:{cls}")
